@@ -44,10 +44,21 @@ FootprintInside(r) ==
     IN  (x1 >= x2 \/ y1 >= y2) \/
         (x1 + ox >= 0 /\ x2 + ox <= r.sw /\ y1 + oy >= 0 /\ y2 + oy <= r.sh)
 
+RECURSIVE SumFrom(_, _)
+SumFrom(s, i) == IF i > Len(s) THEN 0 ELSE s[i] + SumFrom(s, i + 1)
+(* a convolution kernel (logged parameter block) keeps alpha 1 only if its coefficients sum to exactly 1.0:   *)
+(* CONVOLUTION: [w, h, coefficients...]; SEPARABLE (one phase): [w, h, 0, 0, x coefficients (w), y coefficients (h)] *)
+KernelUnitGain(r) ==
+    IF r.sfilt < 50 THEN TRUE
+    ELSE IF r.sfilt < 60 THEN SumFrom(r.kernel, 3) = 65536
+    ELSE LET w == r.kernel[1] \div 65536 IN
+         SumFrom(SubSeq(r.kernel, 5, 4 + w), 1) = 65536 /\ SumFrom(r.kernel, 5 + w) = 65536
+
 SrcTrulyOpaque(r) ==
     \/ r.skind = 1                                         \* solid, alpha 1
     \/ /\ r.skind \in {0, 2, 3} /\ r.s_abits = 0           \* alpha-less format ...
        /\ (r.srep # 0 \/ ~r.simple \/ FootprintInside(r))  \* ... and nothing sampled outside a non-repeating image
+       /\ KernelUnitGain(r)                                 \* ... and the filter does not scale alpha
 MaskTrulyOpaque(r) == r.mkind \in {0, 2}                   \* absent or solid alpha 1 (bits masks are never flagged here:
                                                             \* an a8 / component-alpha mask has an alpha channel)
 
